@@ -165,7 +165,8 @@ class Printer {
     const name = this.tok('attr-name', nameText, extra)
     if (v === undefined) { this.tokens.push({ kind: 'attr-end', text: '', start: [this.line, this.col], end: [this.line, this.col], off: this.out.length, offEnd: this.out.length, name }); return name }
     this.raw('=')
-    const q = this.quoteFor(v)
+    // (an unquoted value ends at the first blank, `/` or `>`: only used for single bindings printed without blanks)
+    const q = extra && extra.unquoted && this.s.exprPad === '' ? '' : this.quoteFor(v)
     this.raw(q)
     this.value(v, q, extra && extra.objectInner)
     this.raw(q)
@@ -247,7 +248,7 @@ class Printer {
         break
       case 'tdef': this.open('template', n, () => this.attr('name', n.name), n.children); break
       case 'tis':
-        this.open('template', n, () => { this.controlAttrs(n); this.attr('is', n.is); if (n.data) this.attr('data', { e: n.data }, { objectInner: true }) }, [])
+        this.open('template', n, () => { this.controlAttrs(n); this.attr('is', n.is); if (n.data) this.attr('data', { e: n.data }, { objectInner: true, unquoted: !!n.unquotedData }) }, [])
         break
       case 'include': this.open('include', n, () => this.attr('src', n.src), []); break
       case 'import': this.open('import', n, () => this.attr('src', n.src), []); break
